@@ -238,7 +238,7 @@ def gen_hist(r, k):
 
 
 def hist_scenario(c, statefile):
-    L = ["natoms %d" % len(c["vars"]), "new", "config EOF"]
+    L = ["natoms %d" % len(c["vars"]), "prefix hout%d" % c["id"], "new", "config EOF"]
     for d, v in enumerate(c["vars"]):
         L += ["colvar {", "  name v%d" % d]
         # boundaries on the colvar (always; a custom grid block overrides them)
@@ -254,6 +254,7 @@ def hist_scenario(c, statefile):
     L += ["histogram {", "  name h", "  colvars " + " ".join("v%d" % d for d in range(len(c["vars"])))]
     if c["stepzero"]:
         L += ["  stepZeroData on"]
+    L += ["  outputFileDX hout%d.h.dx" % c["id"]]
     if any(v["custom"] for v in c["vars"]):
         L += ["  histogramGrid {",
               "    lowerBoundary " + " ".join("%r" % v["lower"] for v in c["vars"]),
@@ -273,6 +274,7 @@ def hist_scenario(c, statefile):
             L.append("runboundary")
         L.append("step")
     L.append("save text %s" % statefile)
+    L.append("postrun")          # writes the histogram's multicolumn and OpenDX files
     return "\n".join(L) + "\n"
 
 
@@ -341,6 +343,178 @@ def parse_hist_state(path, name="h"):
     if not m:
         return None
     return [float(t) for t in m.group(1).split()]
+
+
+
+def check_hist_files(run, c, d, exp, model, scenario):
+    """the histogram's own output files (written by write_output_files at the end of the run): the multicolumn file must be
+    the model's write_multicol of the expected grid, and the OpenDX header must describe the grid"""
+    vs = c["vars"]
+    nd = len(vs)
+    dat = os.path.join(d, "hout%d.h.dat" % c["id"])
+    dx = os.path.join(d, "hout%d.h.dx" % c["id"])
+    if not c["events"] or not any(True for _ in exp):
+        return
+    has_data = any(e > 0 for e in exp)
+    if not has_data:
+        return            # nothing is written for an empty histogram
+    g = {"mult": 1, "nd": nd, "nx": [v["nx"] for v in vs], "lower": [v["lower"] for v in vs], "upper": [v["upper"] for v in vs],
+         "width": [v["w"] for v in vs], "per": [1 if v["periodic"] else 0 for v in vs], "data": [float(e) for e in exp]}
+    if not os.path.exists(dat):
+        run.mismatch("hist:file:multicol", {"scenario": scenario}, "no file " + os.path.basename(dat), "written")
+        return
+    text = open(dat).read()
+    rc, mo, e = V.run_lines(model, ["WRITE multicol " + gridio.spec(g)])
+    diff = gridio.toks_differ(mo[0][2:].split(), gridio.lex(text), 0.0) if mo and mo[0].startswith("T ") else "model: %s" % mo[:1]
+    run.count("histfile%d" % c["id"], True)
+    run.dist("hist:file:multicol")
+    if diff:
+        # oracle on the implementation alone: rows = bin centres + exact counts, in row-major order
+        rows = [l.split() for l in text.split("\n") if l.strip() and not l.startswith("#")]
+        import itertools
+        want = []
+        for a, ix in enumerate(itertools.product(*[range(v["nx"]) for v in vs])):
+            want.append([v["lower"] + v["w"] * (0.5 + i) for v, i in zip(vs, ix)] + [float(exp[a])])
+        got = [[float(x) for x in r_] for r_ in rows]
+        if got != want:
+            run.violation("hist:file:multicol", "the histogram's multicolumn file does not list the bins (centres, counts) of the exact histogram in address order: %s vs %s" % (got[:6], want[:6]),
+                          {"kind": "hist", "scenario": scenario, "file": text, "expected_rows": want})
+        run.mismatch("hist:file:multicol", {"scenario": scenario}, text[:500], (mo[0][:500] if mo else "") + " [" + str(diff) + "]")
+    if os.path.exists(dx):
+        h = gridio.dx_header(open(dx).read())
+        run.dist("hist:file:dx")
+        # the file is written with the stream's default 6 significant digits: dyadic values of this generator print exactly
+        origin = [v["lower"] + 0.5 * v["w"] for v in vs]
+        ok = (h["counts"] == g["nx"] and h["origin"] is not None and len(h["origin"]) == nd and
+              all(gridio.close(a, b, 1e-5) for a, b in zip(h["origin"], origin)) and len(h["delta"]) == nd and
+              all(gridio.close(h["delta"][i][j], vs[i]["w"] if i == j else 0.0, 1e-5) for i in range(nd) for j in range(nd)))
+        if not ok:
+            run.violation("hist:file:dx-header", "the OpenDX header %s does not describe the histogram's grid: sizes %s, first bin centres %s, widths %s" % (
+                h, g["nx"], origin, g["width"]), {"kind": "hist", "scenario": scenario, "file": open(dx).read()[:2000]})
+    else:
+        run.mismatch("hist:file:dx", {"scenario": scenario}, "no file " + os.path.basename(dx), "written")
+
+
+
+# ---------------------------------------------------------------- a real save/load of a gridded bias
+def meta_state_scenario(r, k):
+    """metadynamics with grids on 1-2 exact variables with non-dyadic boundaries: run, save, fresh instance, load, and let both
+    instances write their PMF (multicolumn form, full precision): the grid of the resumed instance must be the configured one"""
+    nd = r.choice([1, 1, 2])
+    vs = []
+    for d in range(nd):
+        lo = r.choice(gridio.NONDYADIC) * r.choice([1, 1, -1])
+        w = r.choice([0.5, 0.3, 0.25, 0.7])
+        n = r.randint(4, 8)
+        vs.append({"lower": lo, "w": w, "nx": n, "upper": lo + n * w})
+    cfg = ["config END"]
+    for d, v in enumerate(vs):
+        cfg += ["colvar {", "  name v%d" % d, "  lowerBoundary %r" % v["lower"], "  upperBoundary %r" % v["upper"], "  width %r" % v["w"],
+                "  distanceZ {", "    main { atomNumbers %d }" % (d + 1), "    ref { dummyAtom (0,0,0) }", "    axis (0,0,1)", "  }", "}"]
+    cfg += ["metadynamics {", "  name m", "  colvars " + " ".join("v%d" % d for d in range(nd)), "  hillWeight 0.25", "  hillWidth 1.0",
+            "  newHillFrequency 1", "  useGrids on", "  writeFreeEnergyFile on", "}", "END"]
+    L = ["natoms %d" % nd, "prefix metaA%d" % k, "new"] + cfg + ["show atomf 0 energy 0 bias 0 cv 0"]
+    for s_ in range(r.randint(3, 5)):
+        for d, v in enumerate(vs):
+            L.append("pos %d 0 0 %r" % (d + 1, v["lower"] + v["w"] * r.uniform(1.5, v["nx"] - 1.5)))
+        L.append("step")
+    L += ["save text meta%d.state" % k, "postrun", "prefix metaB%d" % k, "fresh"] + cfg + ["load meta%d.state" % k, "postrun"]
+    return vs, "\n".join(L) + "\n"
+
+
+def multicol_header(text):
+    hdr = [l.split() for l in text.split("\n") if l.startswith("#")]
+    if not hdr or len(hdr[0]) < 2:
+        return None
+    return [(float(h[1]), float(h[2]), int(h[3]), int(h[4])) for h in hdr[1:]]
+
+
+def check_meta_states(run, r, vsim, d, n):
+    for k in range(n):
+        vs, scn = meta_state_scenario(r, k)
+        sc = os.path.join(d, "meta%d.scn" % k)
+        open(sc, "w").write(scn)
+        rc, o, e = V.sh([vsim, sc], cwd=d, timeout=120)
+        fa, fb = os.path.join(d, "metaA%d.pmf" % k), os.path.join(d, "metaB%d.pmf" % k)
+        run.count("metastate%d" % k, True)
+        run.dist("state:meta:nd=%d" % len(vs))
+        if o.count("CONFIG err=ok") != 2 or "LOAD err=ok" not in o or not os.path.exists(fa) or not os.path.exists(fb):
+            run.mismatch("state:meta:run", {"scenario": scn}, o[-400:], "two instances configured, state loaded, two PMF files")
+            continue
+        ha, hb = multicol_header(open(fa).read()), multicol_header(open(fb).read())
+        want = [(v["lower"], v["w"], v["nx"], 0) for v in vs]
+        def same(h):
+            return h is not None and len(h) == len(want) and all(
+                gridio.close(a[0], b[0], 1e-12) and gridio.close(a[1], b[1], 1e-12) and a[2] == b[2] and a[3] == b[3] for a, b in zip(h, want))
+        if not same(ha):
+            run.mismatch("state:meta:config", {"scenario": scn}, ha, want)
+            continue
+        if not same(hb):
+            run.violation("io:roundtrip:state:metadynamics", "after saving and loading the state of a metadynamics bias the energy grid has lower boundary/width/size %s; the grid that was saved (and is configured) has %s" % (
+                [h_[:3] for h_ in hb] if hb else None, [w_[:3] for w_ in want]), {"kind": "hist", "scenario": scn})
+        else:
+            # same geometry: the data must be the same as well (the PMF of the resumed instance = that of the first)
+            da = [l.split() for l in open(fa).read().split("\n") if l.strip() and not l.startswith("#")]
+            db = [l.split() for l in open(fb).read().split("\n") if l.strip() and not l.startswith("#")]
+            if len(da) != len(db) or any(not gridio.close(float(x), float(y), 1e-9) for ra, rb in zip(da, db) for x, y in zip(ra, rb)):
+                run.violation("io:roundtrip:state:metadynamics-data", "the PMF written after loading the saved state differs from the PMF written before saving",
+                              {"kind": "hist", "scenario": scn, "before": da[:20], "after": db[:20]})
+        for f in glob.glob(os.path.join(d, "meta?%d.*" % k)) + glob.glob(os.path.join(d, "meta%d.*" % k)):
+            os.remove(f)
+
+
+VECTOR_SCN = """natoms 2
+new
+config END
+colvar {
+  name v0
+  cartesian {
+    atoms { atomNumbers 1 2 }
+  }
+}
+histogram {
+  name h
+  colvars v0
+  gatherVectorColvars on
+  weights 1 2 3 4 5 6
+  histogramGrid {
+    lowerBoundary 0.0
+    upperBoundary 4.0
+    width 0.5
+  }
+}
+END
+show atomf 0 energy 0 bias 0 cv 0
+pos 1 0.25 1.25 2.25
+pos 2 0.75 1.75 3.75
+step
+step
+step
+save text vec.state
+"""
+
+
+def check_vector_histogram(run, vsim, d):
+    """vector variables gathered into one histogram (gatherVectorColvars, weights): the documented configuration"""
+    sc = os.path.join(d, "vec.scn")
+    open(sc, "w").write(VECTOR_SCN)
+    rc, o, e = V.sh([vsim, sc], cwd=d, timeout=120)
+    run.count("vector-histogram", True)
+    run.dist("hist:vector")
+    sf = os.path.join(d, "vec.state")
+    if "CONFIG err=ok ncv=1 nbias=1" not in o:
+        run.violation("hist:gatherVectorColvars-rejected", "a histogram with gatherVectorColvars on a cartesian (vector) variable and a histogramGrid block is refused at initialisation (%s): vector variables cannot be gathered into a histogram" % (
+            o.split("CONFIG")[1].split("\n")[0].strip() if "CONFIG" in o else o[-100:]), {"kind": "hist", "scenario": VECTOR_SCN})
+        return
+    # the configuration is accepted: 6 components per step with weights 1..6; steps 1 and 2 are eligible (3 steps: 0,1,2)
+    got = parse_hist_state(sf)
+    vals = [0.25, 1.25, 2.25, 0.75, 1.75, 3.75]
+    exp = [0.0] * 8
+    for x, w_ in zip(vals, [1, 2, 3, 4, 5, 6]):
+        exp[int(x // 0.5)] += 2.0 * w_
+    if got != exp:
+        run.violation("hist:vector:counts", "gathered vector histogram %s differs from the weighted histogram of the components at the eligible steps %s" % (got, exp),
+                      {"kind": "hist", "scenario": VECTOR_SCN, "expected": exp, "got": got})
 
 
 def setup():
@@ -442,9 +616,12 @@ def check(run):
             run.mismatch("hist:counts", {"scenario": open(sc).read(), "model_case": mlines[k]}, got, mo)
         if k == 0:
             run.sample({"histogram_scenario": open(sc).read().split("\n")[:40], "counts": got})
-        for f in [sf, sc] + glob.glob(sf + ".r*"):
+        check_hist_files(run, c, d, exp, model, open(sc).read())
+        for f in [sf, sc] + glob.glob(sf + ".r*") + glob.glob(os.path.join(d, "hout%d.*" % k)):
             if os.path.exists(f):
                 os.remove(f)
+    check_meta_states(run, V.rng("C15meta"), vsim, d, 6 if quick else 60)
+    check_vector_histogram(run, vsim, d)
     run.cov["correspondence"].update({"unit_cases": len(cases), "hist_scenarios": len(hcases)})
 
 
